@@ -1421,6 +1421,10 @@ func (m *Monitor) checkC04(g *Gen, w []string, out string, b, a *snapshot) {
 				if !m.expired(s, b) {
 					m.report(g, "transfer-disappeared", fmt.Sprintf("chain %s id %d left the pool in end-block without expiry", c, id))
 				}
+				// … and it leaves as refunded: the status of its transaction says so (written before the entry is deleted)
+				if s.txHash != "" && a.status[s.txHash] != 4 {
+					m.report(g, "transfer-disappeared-without-refund", fmt.Sprintf("chain %s id %d (tx %s) left the pool at expiry, status %d is not REFUNDED", c, id, s.txHash, a.status[s.txHash]))
+				}
 				m.terminal[key] = "refunded"
 			case w[0] == "end" && strings.HasPrefix(where, "batch ") && executed[strings.TrimPrefix(where, "batch ")]:
 				m.terminal[key] = "executed"
